@@ -19,6 +19,15 @@ from pathlib import Path
 from lv import families, harness, monitor, tlc
 from lv.families import UNL
 
+def with_prior_call(job, rnd):
+    # a quarter of the runs are preceded by another run_tasks call on the same task instances (shape seeds that are
+    # multiples of 3 never build fresh equal instances, so the instances really are shared)
+    if rnd.random() < 0.25:
+        n = job['cfg']['n']
+        job['prior'] = sorted(rnd.sample(range(1, n + 1), rnd.randrange(1, n + 1)))
+        job['shape_seed'] = job['shape_seed'] - job['shape_seed'] % 3
+
+
 def with_displays(job, rnd):
     # C11: "default and disabled progress/monitor displays" -- a third of the real runs keep tqdm and the task monitor on
     job['displays'] = rnd.random() < 0.34
@@ -35,6 +44,7 @@ SPECS = {
                                cached='all-subsets', reqs='rich', busts=(False, True))),
         title='returned dict = requested tasks in order, each with its own reference value'),
     'C02': dict(
+        jobfn=with_prior_call,
         invs=['A_C02_RealResult'], props=['A_C02_SubmitAfterDeps', 'A_C02_RunAfterDeps', 'A_C02_StartAfterSubmit'],
         fam=dict(quick=[dict(n=3, ntypes=1, maxpars=(UNL,), maxws=(1, 2), backends=('fork', 'spawn', 'serial'),
                              cached='none', reqs='subsets', fails='singles'),
@@ -55,9 +65,13 @@ SPECS = {
         fam=dict(quick=[dict(n=3, ntypes=2, maxpars=(1, 2, UNL), maxws=(1, 2, 3), backends=('fork', 'serial'),
                              cached='none', reqs='roots', fails='singles', sample=2500),
                         dict(n=4, ntypes=1, maxpars=(2,), maxws=(3, 4), backends=('fork',), cached='none',
-                             reqs='roots', max_edges=1, must=True, tcache_opts=[(True,), (False,)])],
+                             reqs='roots', max_edges=1, must=True, tcache_opts=[(True,), (False,)]),
+                        dict(n=3, ntypes=1, maxpars=(1, 2), maxws=(3,), backends=('fork',), cached='all-subsets', busts=(True,),
+                             reqs='roots', max_edges=1, sample=40, must=True)],
                  thorough=[dict(n=4, ntypes=2, maxpars=(1, 2, 3, UNL), maxws=(1, 2, 3, 16), backends=('fork', 'spawn'),
                                 cached='none', reqs='roots', fails='singles', sample=15000, tcache_opts=[(True, True), (False, True)]),
+                           dict(n=4, ntypes=1, maxpars=(1, 2), maxws=(3, 4), backends=('fork',), cached='all-subsets',
+                                busts=(True, False), reqs='roots', max_edges=2, sample=1500, must=True),
                            dict(n=4, ntypes=2, maxpars=(2, 3), maxws=(3, 4, 16), backends=('fork', 'spawn'), cached='none',
                                 reqs='roots', max_edges=2, must=True)]),
         title='|slot| <= max_workers and per-type count <= max_parallel in every state'),
